@@ -13,9 +13,9 @@ from . import common as C
 
 INNER_LIST = ['<<[k |-> "int"]>>', '<<[k |-> "int"], [k |-> "slice"]>>', '<<[k |-> "chan"], [k |-> "int"]>>',
               '<<[k |-> "pint"], [k |-> "dash"], [k |-> "str"]>>', '<<[k |-> "map"], [k |-> "func"], [k |-> "time"]>>',
-              '<<[k |-> "dashref"], [k |-> "int"]>>']
+              '<<[k |-> "dashref"], [k |-> "int"]>>', '<<[k |-> "parr"], [k |-> "str"]>>']
 INNER = "{ %s }" % ", ".join(INNER_LIST)
-ALL_LEAF = '{"int","str","dur","time","slice","map","arr","pint"}'
+ALL_LEAF = '{"int","str","dur","time","slice","map","arr","pint","parr"}'
 ALL_SKIP = '{"dash","dashref","chan","func","unexp"}'
 ALL_STRUCT = '{"struct","pstruct","emb"}'
 
